@@ -2,8 +2,9 @@
 # tools/ingest.sh <PID> <A|B> [check ids to run, default PID]
 # Confirms an agent-made change myself in a scratch copy (tests still pass, demo fails with / passes without),
 # runs my quick check(s) against it, and files it under /verif/seeded/<PID>-<A|B>/.
-PID=$1; V=$2; shift 2; CHECKS="${*:-$PID}"
-SRC=/root/scratch/agent_out/$PID/$V; [ -d "$SRC" ] || SRC=/tmp/wt-$PID/_out/$V
+SRCID=$1; V=$2; shift 2; PID=$(echo "$SRCID" | sed "s/r[0-9]*$//"); CHECKS="${*:-$PID}"
+OUTV=$V; case "$SRCID" in *r2) [ "$V" = A ] && OUTV=C || OUTV=D;; *r3) [ "$V" = A ] && OUTV=E || OUTV=F;; esac
+SRC=/root/scratch/agent_out/$SRCID/$V; [ -d "$SRC" ] || SRC=/tmp/wt-$PID/_out/$V
 [ -f "$SRC/patch.diff" ] || { echo "no $SRC/patch.diff"; exit 1; }
 D=$(mktemp -d /root/scratch/ing.XXXXXX); mkdir -p "$D/src" "$D/out"
 (cd /repo && tar --exclude=.git -cf - .) | tar -xf - -C "$D/src"
@@ -19,10 +20,10 @@ for id in $CHECKS; do
   RES="$RES $id:exit=$rc"
   grep -m2 'signature=' "$D/out/$id.log" | cut -c1-220
 done
-echo "INGEST $PID-$V demo_clean=$DC demo_mut=$DM tests='$TL' newfail=$NEWFAIL checks:$RES"
+echo "INGEST $PID-$OUTV demo_clean=$DC demo_mut=$DM tests='$TL' newfail=$NEWFAIL checks:$RES"
 if [ $DC = 0 ] && [ $DM != 0 ] && [ "$NEWFAIL" = 0 ]; then
-  O=/verif/seeded/$PID-$V; mkdir -p "$O"; cp "$SRC/patch.diff" "$SRC/demo.py" "$O/"; [ -f "$SRC/notes.md" ] && cp "$SRC/notes.md" "$O/"
-  /venv/bin/python - "$O" "$PID" "$V" "$TL" "$DC" "$DM" "$RES" <<'PY'
+  O=/verif/seeded/$PID-$OUTV; mkdir -p "$O"; cp "$SRC/patch.diff" "$SRC/demo.py" "$O/"; [ -f "$SRC/notes.md" ] && cp "$SRC/notes.md" "$O/"
+  /venv/bin/python - "$O" "$PID" "$OUTV" "$TL" "$DC" "$DM" "$RES" <<'PY'
 import json, sys, os
 o, pid, v, tl, dc, dm, res = sys.argv[1:8]
 notes = open(o + '/notes.md').read() if os.path.exists(o + '/notes.md') else ''
